@@ -247,6 +247,15 @@ func randomVars(t *tape.Tape, names []string) map[string]interface{} {
 }
 
 var c03Adversarial = []string{
+	// one GraphQL type in two Go shapes (value and pointer), method-backed fields
+	"{ label { title } labelAlso { title } }",
+	"{ labelAlso { title artist } label { title artist } }",
+	"{ a: labelAlso { artist } b: label { artist title } c: labelRef { artist title } }",
+	// surplus / null arguments on fields reached through an interface-typed field
+	"{ animals { call(prefix: \"a\", suffix: \"b\", extra: null) } }",
+	"query($x: ID) { animals { call(prefix: \"p\", extra: $x) name(extra: null) legs(a: null, b: null) } }",
+	"{ animals { call(extra: null, more: null, prefix: null) } }",
+	"{ animals { ... on Dog { call(suffix: \"s\", zz: null) owner { nick(n: null, zz: null) } } } }",
 	"{ ...A } fragment A on Query { ...A }",
 	"{ keepers { ...K } } fragment K on Keeper { friend { ...K } }",
 	"{ ...A } fragment A on Query { ...B } fragment B on Query { ...A title }",
@@ -383,6 +392,16 @@ var c03Pairs = [][2]string{
 	{"type Query { f(m: [[Int]], o: [In]): Int }\ninput In { a: Int = 2 b: [In] }", "query($v: [[Int]] = [[1], []], $x: [In] = [{b: [{a: 5}]}]) { f(m: $v, o: $x) }"},
 	{"schema { query: Q mutation: M subscription: S }\ntype Q { a: Int }\ntype M { b(x: Int!): Int }\ntype S { c: Int }", "mutation { b } "},
 	{"schema { query: Q mutation: M subscription: S }\ntype Q { a: Int }\ntype M { b(x: Int!): Int }\ntype S { c: Int }", "subscription { c } "},
+	// schemas that lack an operation type, meta-fields asked for in every kind of operation
+	{"type Mutation { bump: Int }", "mutation { bump __schema { types { name } } }"},
+	{"type Mutation { bump: Int }", "{ __schema { queryType { name } mutationType { name } subscriptionType { name } } }"},
+	{"type Mutation { bump: Int }", "mutation { b: bump ... { __schema { queryType { name fields { name } } } } __typename }"},
+	{"schema { mutation: Writer }\ntype Writer { bump: Int }", "mutation { __type(name: \"Int\") { name } b: bump ... { __schema { queryType { name } } } }"},
+	{"type Subscription { s: Int }", "subscription { s __typename __schema { queryType { name } } }"},
+	{"type Subscription { s: Int }", "mutation { __typename }"},
+	{"schema { query: Lookup }\ntype Lookup { a: Int }\ntype Query { b: Int }", "{ a __schema { queryType { name } } __type(name: \"Lookup\") { fields { name } } }"},
+	{"schema { query: Lookup }\ntype Lookup { a: Int }", "mutation { a } subscription S { a }"},
+	{"type Query { a: Int }\nextend schema { mutation: Query }", "mutation { a __schema { mutationType { name } } __type(name: \"Query\") { name } }"},
 }
 
 // warpLiterals replaces one literal argument value of a request by a value of
